@@ -10,7 +10,7 @@ func init() {
 // vNondetSpecial: a value assembled from pieces: the five special characters, already
 // escaped sequences, CDATA delimiters and free bytes.
 func vNondetSpecial(maxPieces int) string {
-	pieces := []string{"&", "<", ">", "\"", "'", "&amp;", "&#x41;", "]]>", "<![CDATA["}
+	pieces := []string{"&", "<", ">", "\"", "'", "&amp;", "&lt;", "&quot;", "&#x41;", "]]>", "<![CDATA["}
 	n := vChoose(maxPieces + 1)
 	v := ""
 	for i := 0; i < n; i++ {
